@@ -87,6 +87,10 @@ pub fn arb_tm_case() -> impl proptest::strategy::Strategy<Value = TmCase> {
         1 => (0u8..3).prop_map(|peer| TmOp::DropPeer { peer }),
         1 => (0u8..3).prop_map(|peer| TmOp::MarkStale { peer }),
         1 => (0u8..3).prop_map(|peer| TmOp::DropStale { peer }),
+        2 => (0u8..3).prop_map(|peer| TmOp::MarkLlgrStale { peer }),
+        1 => (0u8..3).prop_map(|peer| TmOp::DropLlgrStale { peer }),
+        // routes carrying NO_LLGR
+        3 => (0u8..3, 0u8..10, 0u8..2, 50u8..56, 0u8..3).prop_map(|(peer, prefix, path_id, attrs, nh)| TmOp::Insert { peer, prefix, path_id, attrs, nh }),
         2 => (0u8..3, 0u8..3).prop_map(|(peer, policy)| TmOp::SoftResetIn { peer, policy }),
         3 => (0u8..3, any::<bool>()).prop_map(|(nh, reachable)| TmOp::NhReach { nh, reachable }),
     ];
